@@ -69,6 +69,7 @@ void fault_scope(uint64_t fseed, unsigned mask);
 // per-kind probability (permille) and magnitudes
 void fault_rate(unsigned kind, unsigned permille);
 void fault_late_max_ms(long ms);
+void poison_recv_tail(bool on);                     // recvfrom() clears the part of the buffer behind the received datagram and marks it undefined for valgrind
 void fault_stall_max_ms(long ms);
 void fault_open_prefix(const char *path_prefix);   // open() faults apply to paths that start with this prefix only
 // descriptors on which read/write faults may be injected (default: none).
